@@ -147,6 +147,45 @@ def multiplicity_mismatch(d, counts, valid):
 
 
 # =========================================================================================== C01
+LATIN_SHAPES = [(2, 2), (3, 3), (3, 2), (2, 3), (2, 2, 2), (3, 2, 3), (2, 3, 3), (3, 3, 2), (4, 2, 3)]
+
+
+def _latin_eval(arg):
+    """LatinSquare over several factors, not crossed explicitly, with prod(level counts) trials: the two checkable statements of
+    constraints.rst — every N trials (N = largest level count) include every level of every factor, and the constraint "effectively
+    forces a crossing" once there are enough trials (every combination of levels occurs exactly once in prod(sizes) trials)."""
+    sizes, strat, n = arg
+    import math
+    import sweetpea as sp
+    fs = [sp.Factor(f"f{i}", [f"l{i}{j}" for j in range(s_)]) for i, s_ in enumerate(sizes)]
+    M, N = math.prod(sizes), max(sizes)
+    out = {"sizes": list(sizes)}
+    try:
+        block = sp.CrossBlock(fs, [], [sp.LatinSquare(fs), sp.MinimumTrials(M)])
+        res = SC.runner.synth(block, n, strat)
+    except Exception as e:
+        out["exception"] = [type(e).__name__, str(e)[:200]]
+        return out
+    bad = []
+    for e in res:
+        T = len(e["f0"])
+        combos = [tuple(e[f.name][t] for f in fs) for t in range(T)]
+        why = None
+        if T != M:
+            why = f"{T} trials, expected {M}"
+        elif len(set(combos[:M])) != M:
+            why = f"only {len(set(combos[:M]))} of the {M} level combinations occur in {M} trials"
+        else:
+            for f in fs:
+                for s0 in range(0, T - N + 1, N):
+                    if set(e[f.name][s0:s0 + N]) != {l.name for l in f.levels}:
+                        why = f"trials {s0}..{s0 + N - 1} do not include every level of {f.name}"
+        if why:
+            bad.append([why, {k: list(v) for k, v in e.items()}])
+    out.update(n=len(res), bad=bad[:2], n_bad=len(bad))
+    return out
+
+
 def c01(tier):
     ck = Check("C01", tier, "other",
                "Contract on synthesize_trials for formula-based strategies: every returned sequence satisfies the reference reading "
@@ -193,6 +232,21 @@ def c01(tier):
                              f"design {r['name']}: {s} returned a sequence that violates the documented design: {(v.get('invalid') or [v['lens']])[0]}",
                              _replay(d, strategy=s, invalid=v.get("invalid")))
         ck.sample(dict(design=r["name"], T=r.get("T_lib"), models=cnf.get("n_models"), returned=r.get("IterateSATGen", {}).get("n")))
+    # LatinSquare over two and three factors of unequal sizes (sequence spaces far beyond the enumeration bound of D: sampled, each sequence checked)
+    largs = [(sz, st_, 12 if tier == "quick" else 60) for sz in LATIN_SHAPES for st_ in strats[:1] + (["CMSGen"] if tier == "thorough" else [])]
+    for (sz, st_, n_), (pst, r) in zip(largs, SC.runner.pmap(_latin_eval, largs, jobs=9, timeout=120)):
+        oid = f"C01.latin.doc({'x'.join(map(str, sz))},{st_})"
+        if pst != "ok" or "exception" in r:
+            ck.oblig(oid, "E", "undecided", detail=str(r)[:200])
+            continue
+        ck.count(("latin", sz, st_))
+        ok = r["n_bad"] == 0 and r["n"] > 0
+        ck.oblig(oid, "E", "passed" if ok else "failed", detail=None if ok else (r["bad"][0][0] if r["bad"] else "no sequence returned"))
+        if not ok:
+            ck.violation("C01.latin.doc", f"latin:{'x'.join(map(str, sz))}:{st_}",
+                         f"LatinSquare over factors with {list(sz)} levels (uncrossed, MinimumTrials = product): {st_} returned a sequence that contradicts the documentation: "
+                         f"{r['bad'][0][0] if r['bad'] else 'no sequence'}",
+                         dict(replay_kind="latin", sizes=list(sz), strategy=st_, example=r["bad"][0][1] if r["bad"] else None))
     ck.rule = ("one case per design of D (curated core + VERIF_SEED random draws); non-trivial = constructs, is covered by the reference "
                "reading, compiles; per design all models of the formula are enumerated (up to the stated limit)")
     ck.exhaustive = False
@@ -594,7 +648,14 @@ def c06(tier):
         # "designs that need no rejection step": a single CrossBlock whose only constraints are Exclude (handled by construction)
         # and whose derived factors are within-trial (complex windows are sampled by rejection)
         fm_ = model.factor_map(d)
-        g_ok = (d["block"]["kind"] == "cross" and all(c[0] == "Exclude" for c in d["block"]["constraints"])
+        # an Exclude is handled by construction only when it names a level of a crossed factor (for a derived level: all of whose sources are
+        # crossed too); an Exclude on anything else — an uncrossed factor that feeds a crossed derived factor, an uncrossed derived level — is
+        # enforced by rejecting candidates, so such a design is outside "designs that need no rejection step"
+        def _by_construction(c_):
+            cr = d["block"].get("crossing", [])
+            F_ = fm_[c_[1]]
+            return c_[1] in cr and (not model.is_derived(F_) or all(g_ in cr for g_ in F_["derive"]["deps"]))
+        g_ok = (d["block"]["kind"] == "cross" and all(c[0] == "Exclude" and _by_construction(c) for c in d["block"]["constraints"])
                 and not any(model.is_derived(fm_[f]) and model._complex(fm_, fm_[f]) for f in d["block"]["design"]))
         if g_ok and m.get("total_rejected") == 0 and m.get("solution_count") is not None and not r["amb"] and "preamble" not in d["tags"]:
             okc = m["solution_count"] == sum(expected_multiplicity(d, k)[0] for k in lo)
